@@ -269,8 +269,23 @@ func w18run(sc *w18scn) *w18res {
 					return res
 				}
 				if c.Err == mangos.ErrSendTimeout {
-					full = true
 					c.Msg.Free()
+					// a probe can also time out because the sender goroutine that is about to take a message out of the
+					// queue has not run yet (a slow machine): the queue is full only if, with everything settled, the
+					// next probe times out as well
+					time.Sleep(25 * time.Millisecond) // (the scenarios of this check run in parallel: no global quiescence to wait for)
+					c2 := vp.GoSend(proto, hdr, body)
+					if !c2.Wait(time.Second) {
+						res.skipped = "probe hung"
+						return res
+					}
+					if c2.Err == mangos.ErrSendTimeout {
+						c2.Msg.Free()
+						full = true
+					} else if c2.Err != nil {
+						res.skipped = "probe: " + vp.ErrName(c2.Err)
+						return res
+					}
 				} else if c.Err != nil {
 					res.skipped = "probe: " + vp.ErrName(c.Err)
 					return res
@@ -314,8 +329,25 @@ func w18run(sc *w18scn) *w18res {
 					return res
 				}
 				if c.Err == mangos.ErrSendTimeout {
-					full = true
 					c.Msg.Free()
+					// the same second look as for the socket-level sends
+					time.Sleep(25 * time.Millisecond)
+					if !recvOne(pctx) {
+						res.skipped = "probe recv failed"
+						return res
+					}
+					c2 := vp.GoSend(pctx, nil, []byte("a"))
+					if !c2.Wait(time.Second) {
+						res.skipped = "probe hung"
+						return res
+					}
+					if c2.Err == mangos.ErrSendTimeout {
+						c2.Msg.Free()
+						full = true
+					} else if c2.Err != nil {
+						res.skipped = "probe: " + vp.ErrName(c2.Err)
+						return res
+					}
 				} else if c.Err != nil {
 					res.skipped = "probe: " + vp.ErrName(c.Err)
 					return res
